@@ -61,6 +61,9 @@ type Term struct {
 	evVal   uint64
 	// printer state
 	defined bool
+	// variables occurring in the term (IDs of OpVar terms, sorted), computed lazily
+	vars     []int
+	varsDone bool
 }
 
 type key struct {
@@ -1045,4 +1048,55 @@ func (s *Store) WriteStandalone(sb *strings.Builder, asserts []*Term, vars []*Te
 	for _, a := range asserts {
 		fmt.Fprintf(sb, "(assert %s)\n", a.Ref())
 	}
+}
+
+// VarIDs returns the sorted IDs of the variables occurring in t (cached on the term).
+func (s *Store) VarIDs(t *Term) []int {
+	if t.varsDone {
+		return t.vars
+	}
+	switch t.Op {
+	case OpConst:
+	case OpVar:
+		t.vars = []int{t.ID}
+	default:
+		var acc []int
+		for _, c := range [...]*Term{t.A, t.B, t.C} {
+			if c == nil {
+				continue
+			}
+			acc = mergeSorted(acc, s.VarIDs(c))
+		}
+		t.vars = acc
+	}
+	t.varsDone = true
+	return t.vars
+}
+
+func mergeSorted(a, b []int) []int {
+	if len(a) == 0 {
+		return b
+	}
+	if len(b) == 0 {
+		return a
+	}
+	out := make([]int, 0, len(a)+len(b))
+	i, j := 0, 0
+	for i < len(a) && j < len(b) {
+		switch {
+		case a[i] < b[j]:
+			out = append(out, a[i])
+			i++
+		case a[i] > b[j]:
+			out = append(out, b[j])
+			j++
+		default:
+			out = append(out, a[i])
+			i++
+			j++
+		}
+	}
+	out = append(out, a[i:]...)
+	out = append(out, b[j:]...)
+	return out
 }
